@@ -197,6 +197,8 @@ def touch_generators(rp):
         upd = runner_payload_ops.update_instruction_generator_safe(rp, ig.unwrap())
         if not isinstance(upd, Failure):
             rp = upd.unwrap()
+    # ... and re-installing the very same generators in the same order is an identity too
+    rp = runner_payload_ops.set_instruction_generators(rp, tuple(rp.u.step_update.ordered_instruction_generators))
     return rp
 
 
